@@ -155,7 +155,7 @@ theorem lpcFit_chirp (m j : Int) (hm0 : 32768 ≤ m) (hm1 : m ≤ 163838) (hj0 :
   intro den q
   have hp1 : m ≤ m * j := by nlinarith
   have hp2 : m * j ≤ m * 16 := by nlinarith
-  have hden : den = m * j / 4 := by show shrI (m * j) 2 = _; unfold shrI; rw [pow2_2]
+  have hden : den = m * j / 4 := by show shrI (m * j) 2 = _; unfold shrI; rw [rpow2_2]
   have hI : I32 ((m - 32767) * 16384) := by unfold I32; omega
   have hl : lshift32 (m - 32767) 14 = (m - 32767) * 16384 := by
     unfold lshift32; rw [pow2_14]; exact wrap32_id hI
